@@ -75,7 +75,7 @@ pub fn e1_jobs(prop: &str, tier: Tier) -> (Vec<E1Job>, usize) {
     let pill = |d| E1Job { profile: Profile::Ill, depth: d, alt_map: false };
     let fam = if q { 64 } else { 400 };
     let jobs = match prop {
-        "C01" | "C05" => if q { vec![pa(3), E1Job { profile: Profile::A { times: vec![1, 3, 5] }, depth: 3, alt_map: true }, pbs(4), pc(6), pd(4), pdj(5), pe(1, true, 2), paj(4), pa15(4)] } else { vec![pa15(4), pb(4), pc(8), pc3(9), paj(5), paj5(4), pd(5), pe(2, true, 2), pe(1, false, 3), pa(4)] },
+        "C01" | "C05" => if q { vec![pa(3), E1Job { profile: Profile::A { times: vec![1, 3, 5] }, depth: 3, alt_map: true }, pbs(4), pc(6), pd(4), pdj(5), pe(1, true, 2), paj(4), pa15(4), E1Job { profile: Profile::S, depth: 2, alt_map: false }] } else { vec![pa15(4), pb(4), pc(8), pc3(9), paj(5), paj5(4), pd(5), pe(2, true, 2), pe(1, false, 3), pa(4), E1Job { profile: Profile::S, depth: 3, alt_map: false }] },
         "C02" => if q { vec![pb(3), pbs(4), pd(5), pdj(4)] } else { vec![pb(4), pbs(5), pd(6), pdj(5)] },
         "C03" => if q { vec![pd(5), pdj(5), pf(4), pe(1, true, 2)] } else { vec![pd(6), pdj(6), pf(5), pe(2, true, 2)] },
         "C04" => if q { vec![pa1(3), pbs(3), pc(6), paj(4), pd(4), pe(1, true, 2), pf(4), E1Job { profile: Profile::S, depth: 2, alt_map: false }, pc3(8)] } else { vec![pa(3), pbs(4), pc(8), pd(5), pe(2, true, 2), pf(5)] },
@@ -102,6 +102,20 @@ pub fn e1_jobs(prop: &str, tier: Tier) -> (Vec<E1Job>, usize) {
         "C01" | "C02" | "C04" | "C05" | "C10" | "C12" | "C13" | "C18" | "C20" | "C03" => fam,
         _ => 0,
     };
+    // the thorough tier explores a superset of the quick tier: every quick job that no thorough job of the
+    // same profile covers at the same or a greater depth is run first
+    if !q {
+        let (quick, _) = e1_jobs(prop, Tier::Quick);
+        let mut extra: Vec<E1Job> = Vec::new();
+        for qj in quick {
+            let covered = jobs.iter().chain(extra.iter()).any(|tj| tj.profile.label() == qj.profile.label() && tj.alt_map == qj.alt_map && tj.depth >= qj.depth);
+            if !covered {
+                extra.push(qj);
+            }
+        }
+        extra.extend(jobs);
+        jobs = extra;
+    }
     (jobs, fam_n)
 }
 
@@ -1053,14 +1067,22 @@ pub fn run_c16(tier: Tier, budget: Duration, frag: &mut Frag) {
 pub fn run_c09(tier: Tier, budget: Duration, frag: &mut Frag) {
     let q = tier == Tier::Quick;
     let t0 = Instant::now();
-    let jobs: Vec<(usize, bool)> = if q { vec![(3, true)] } else { vec![(3, true), (4, false)] };
+    // (depth, full alphabet, concrete dynamic ids behind the key indices; index 0 is the slot of the typed calls)
+    const MAX: u64 = u64::MAX;
+    let boundary: Vec<Vec<u64>> = vec![vec![0, MAX - 1, MAX], vec![0, 1 << 32, 1], vec![0, (1 << 32) + 1, 1], vec![0, 1 << 63, (1 << 63) - 1], vec![0, 0xFFFF_FFFF, 0xFFFF_FFFE]];
+    let mut jobs: Vec<(usize, bool, Vec<u64>)> = if q { vec![(3, true, vec![0, 1])] } else { vec![(3, true, vec![0, 1]), (4, false, vec![0, 1])] };
+    for b in &boundary {
+        // id-space boundaries: neighbours at the top of the range, ids that collide when truncated to 32 bits or
+        // when the top bit is lost, ids around the 32-bit boundary
+        jobs.push((if q { 2 } else { 3 }, q, b.clone()));
+    }
     let n = jobs.len() as u32;
-    for (depth, full) in jobs {
+    for (depth, full, ids) in jobs {
         let t1 = Instant::now();
-        let (st, samples) = crate::c09::run(depth, full, t1 + budget / n, threads(), &mut frag.col);
+        let (st, samples) = crate::c09::run(depth, full, &ids, t1 + budget / n, threads(), &mut frag.col);
         frag.parts.push(json!({
             "engine": "E3 histmc",
-            "what": format!("World map histories: every history of length <= {} over the {} alphabet ({} operations), plus breadth-first closure with de-duplication on the observed state (which of the 6 keys are present)", depth, if full { "full" } else { "core" }, crate::c09::alphabet(full).len()),
+            "what": format!("World map histories: every history of length <= {} over the {} alphabet ({} operations; 3 resource types x dynamic ids {:?}), plus breadth-first closure with de-duplication on the observed state (which of the {} keys are present)", depth, if full { "full" } else { "core" }, crate::c09::alphabet(full).len(), ids, 3 * ids.len()),
             "histories": st.histories, "operations_applied": st.transitions, "distinct_observed_states": st.states, "max_depth": st.max_depth, "cap_hit": st.capped, "wall_s": t1.elapsed().as_secs_f64(),
         }));
         frag.states += st.states + st.histories;
@@ -1072,7 +1094,7 @@ pub fn run_c09(tier: Tier, budget: Duration, frag: &mut Frag) {
         }
     }
     let _ = t0;
-    frag.assumptions.push("resource types: zero-sized, heap-owning, 512-byte; dynamic ids {0,1}; payload identity by serial numbers in a thread-local live set".into());
+    frag.assumptions.push("resource types: zero-sized, heap-owning, 512-byte; dynamic ids {0,1} at full depth and five boundary triples at reduced depth; payload identity by serial numbers in a thread-local live set".into());
 }
 
 // ---------------------------------------------------------------------------
